@@ -718,6 +718,10 @@ def gen_c13(tier, seed):
         for mode in ('numeric', 'alphanumeric'):
             for n in range(1, T.max_chars(v, e, mode) + 1):
                 calls.append(content_call(r, v, e, mode, n))
+    # large, sparsely filled symbols: hundreds to thousands of pad codewords, all of them alternating up to the capacity
+    for v, e in (((13, 'L'), (15, 'M'), (20, 'Q'), (27, 'L'), (33, 'H'), (40, 'L')) if tier == 'quick' else [(v, e) for v in range(11, 41) for e in ('L', 'H')]):
+        for c in ('1234567', 'AB', 'x'):
+            calls.append(call('make', c, version=v, error=e, boost_error=False))
     # the middle of every range: random version, level, mode and length (thorough: many)
     for _ in range(60 if tier == 'quick' else 1500):
         v = r.choice(ALLV)
